@@ -232,7 +232,7 @@ ReaderProgress == \A s \in Inputs : LET r == ReadValue(s, 1) IN
 
 \* account names over the characters a name may contain (everything but the double quote);
 \* protocol names are symbols (no white space, no parentheses, not starting like another kind of value)
-NameChars == {"a", "Z", "0", "@", ".", "/", " ", "(", ")", "#", "-", "\\", "'"}
+NameChars == {"a", "Z", "0", "@", ".", "/", " ", "(", ")", "#", "-", "\\", "'", "\t"}
 Names == SeqsUpTo(NameChars, NameLen) \cup {<<"a", "@", "b", ".", "c", "/", "r", " ", "(", "x", ")">>}
 Digits == {<<"1">>, <<"A", "0">>, <<"F", "F", "0", "1">>, <<"0">>}
 Account(n, pr, d) == [name |-> n, protocol |-> pr, p |-> d, q |-> <<"2">>, g |-> <<"3">>, y |-> <<"4">>, x |-> <<"5">>]
@@ -283,9 +283,13 @@ ASSUME ImportProgress
 VARIABLE done
 Init == done = FALSE
 ReadVectors == {LET r == ReadValue(s, 1) IN [kind |-> "read", in |-> Join(s), v |-> r.r, pos |-> r.i - 1, end |-> r.end] : s \in Inputs}
+\* what the exporter must write, character for character
+ExportVectors == {LET a == Account(n, pr, d) IN
+                    [kind |-> "export", name |-> Join(n), protocol |-> Join(pr), p |-> Join(d), out |-> Join(ExportFile(<<a, a>>))] :
+                  n \in Names, d \in Digits, pr \in {<<"x">>, <<"p", "r", "p", "l", "-", "j">>}}
 ImportVectors == {LET r == Import(s) IN [kind |-> "import", in |-> Join(s), ok |-> r.ok, accs |-> r.accs] : s \in KeyFileInputs}
 Next == /\ ~done /\ done' = TRUE
-        /\ (Export => ndJsonSerialize(OutFile, SetToSeq(ReadVectors) \o SetToSeq(ImportVectors)))
+        /\ (Export => ndJsonSerialize(OutFile, SetToSeq(ReadVectors) \o SetToSeq(ImportVectors) \o SetToSeq(ExportVectors)))
 Spec == Init /\ [][Next]_done
 
 =============================================================================
